@@ -3,9 +3,9 @@ from . import layout
 
 
 def run(ck):
-    ck.explanation = ("C05 (narrow): the order in which the expanded leaf constructor creates public-input targets equals the index tables of the inputs crate, of both leaf parsers "
+    ck.explanation = ("C05 (narrow): the order in which the expanded leaf constructor (default build, and `new_profiled` of the `profile` build) creates public-input targets equals the index tables of the inputs crate, of both leaf parsers "
                       "and of the aggregator (four tables, one layout); depth / length / position guards reject with Err and dominate the work they protect; the verifier loader's caps and pins precede parsing")
     ck.not_decided = ["that honest proving succeeds and the pinned verifier accepts (completeness) — needs running the prover", "parse-back equality on values", "absence of panics in general"]
-    ob = layout.analyse05(ck)
+    ob = layout.analyse05(ck, with_profile=True)
     ob.emit(ck, "C05")
     ck.floor("AGREE", "layout/obligations", len([1 for it in ob.items if "C05" in it[0]]), 12, "C05 obligations evaluated")
